@@ -1276,34 +1276,28 @@ def build_mix(ctx, J, Q, cs, rng):
     return lists, desc
 
 
-def run_setq_case(ctx, hs, J, Q, cs, rng, case):
-    SetQ = J.SetQOperations
-    with hs.paused():
-        lists, desc = build_mix(ctx, J, Q, cs, rng)
-    ok, s = ctx.attempt(SetQ, states=lists["State"], gates=lists["Gate"], povms=lists["Povm"], mprocesses=lists["MProcess"])
-    info0 = {"members": desc}
-    if not ok:
-        ctx.violation(f"SetQOperations.ctor:{ctx.exc_key(s)}", info0)
-        return
+def judge_setq(ctx, s, lists, desc, rng, J, tag=""):
+    """all set-wide oracles on the set `s` whose current member lists are `lists`; tag = history suffix of the keys"""
+    info0 = {"members": desc, "history": tag or "fresh"}
     members = [(MODE[t], j, o) for t in ("State", "Gate", "Povm", "MProcess") for j, o in enumerate(lists[t])]
     mvars = [J.member_var(o) for (_, _, o) in members]
     if any(x is None for x in mvars):
         ctx.skip("setq.no-layout")
-        return
+        return None
     want_size = sum(n_var(gen.type_of(o), o.composite_system.dim, (m_from_total(gen.type_of(o), o.composite_system.dim, flat_raw(gen.type_of(o), gen.raw_params(o), o.composite_system.dim).size)),
                           bool(o.on_para_eq_constraint)) for (_, _, o) in members)
     ok, size = ctx.attempt(s.size_var_total)
     ok2, vt = ctx.attempt(s.var_total)
     if not (ok and ok2):
-        ctx.violation(f"SetQOperations.var_total:{ctx.exc_key(size if not ok else vt)}", info0)
-        return
+        ctx.violation(f"SetQOperations.var_total:{ctx.exc_key(size if not ok else vt)}" + tag, info0)
+        return None
     vt = np.asarray(vt, dtype=np.float64)
-    ctx.truth("setq.size", is_int(size) and int(size) == want_size and vt.shape == (want_size,), key="SetQOperations.size_var_total:differs-from-sum-of-member-variable-counts",
+    ctx.truth("setq.size", is_int(size) and int(size) == want_size and vt.shape == (want_size,), key="SetQOperations.size_var_total:differs-from-sum-of-member-variable-counts" + tag,
               info=dict(info0, got=repr(size), want=want_size, len_var_total=int(vt.size)))
     allv = np.concatenate(mvars) if mvars else np.zeros(0)
-    ctx.truth("setq.var_total-is-union", vt.size == allv.size and np.array_equal(np.sort(vt), np.sort(allv)), key="SetQOperations.var_total:not-the-union-of-member-variables", info=info0)
+    ctx.truth("setq.var_total-is-union", vt.size == allv.size and np.array_equal(np.sort(vt), np.sort(allv)), key="SetQOperations.var_total:not-the-union-of-member-variables" + tag, info=info0)
     if vt.size != want_size:
-        return
+        return None
     unique = np.unique(vt).size == vt.size
     # total -> local over the whole range
     seen = set()
@@ -1318,7 +1312,7 @@ def run_setq_case(ctx, hs, J, Q, cs, rng, case):
         except Exception:
             good = False
     full = {(mo, j, i) for (mo, j, o), mv in zip(members, mvars) for i in range(mv.size)}
-    ctx.truth("setq.bijection", good and seen == full, key="SetQOperations.local_info_from_index_var_total:not-a-bijection-onto-local-indices",
+    ctx.truth("setq.bijection", good and seen == full, key="SetQOperations.local_info_from_index_var_total:not-a-bijection-onto-local-indices" + tag,
               info=dict(info0, size_total=want_size, n_distinct_local=len(seen), values_distinct=bool(unique)))
     # local -> total over every local index
     img = set()
@@ -1326,16 +1320,16 @@ def run_setq_case(ctx, hs, J, Q, cs, rng, case):
         for i in range(mv.size):
             ok, k = ctx.attempt(s.index_var_total_from_local_info, mo, j, i)
             if not ok:
-                ctx.violation(f"SetQOperations.index_var_total_from_local_info:{mo}:{ctx.exc_key(k)}", info0)
+                ctx.violation(f"SetQOperations.index_var_total_from_local_info:{mo}:{ctx.exc_key(k)}" + tag, info0)
                 continue
             if is_int(k):
                 img.add(int(k))
                 if 0 <= k < want_size:
                     ok, li = ctx.attempt(s.local_info_from_index_var_total, int(k))
                     same = ok and (li.get("mode"), li.get("index_operations"), li.get("index_var_local")) == (mo, j, i)
-                    ctx.truth("setq.inverse-local-total-local", bool(same), key=f"SetQOperations.index_var_total_from_local_info:{mo}:not-inverse-of-local_info_from_index_var_total",
+                    ctx.truth("setq.inverse-local-total-local", bool(same), key=f"SetQOperations.index_var_total_from_local_info:{mo}:not-inverse-of-local_info_from_index_var_total" + tag,
                               info=dict(info0, local=[mo, j, i], total=int(k), back=repr(li)))
-    ctx.truth("setq.bijection-local-to-total", img == set(range(want_size)), key="SetQOperations.index_var_total_from_local_info:not-a-bijection-onto-total-range",
+    ctx.truth("setq.bijection-local-to-total", img == set(range(want_size)), key="SetQOperations.index_var_total_from_local_info:not-a-bijection-onto-total-range" + tag,
               info=dict(info0, size_total=want_size, n_images=len(img)))
     # out of range must raise (the hook gives the verdict)
     for k in (-1, want_size, want_size + int(rng.integers(1, 50)), -int(rng.integers(2, 50))):
@@ -1360,16 +1354,54 @@ def run_setq_case(ctx, hs, J, Q, cs, rng, case):
         except Exception:
             okm = False
         if okm:
-            ctx.num("setq.rebuild-reproduces-members", worst, TOL_PASS, TOL_FAIL, key="SetQOperations.set_qoperations_from_var_total:member-not-reproduced", info=info0)
+            ctx.num("setq.rebuild-reproduces-members", worst, TOL_PASS, TOL_FAIL, key="SetQOperations.set_qoperations_from_var_total:member-not-reproduced" + tag, info=info0)
         else:
-            ctx.truth("setq.rebuild-reproduces-members", False, key="SetQOperations.set_qoperations_from_var_total:member-count-changed", info=info0)
+            ctx.truth("setq.rebuild-reproduces-members", False, key="SetQOperations.set_qoperations_from_var_total:member-count-changed" + tag, info=info0)
     # rebuild from a fresh (non-physical) vector: var_total of the result is that vector (hook), wrong length raises
     fresh = 10.0 ** int(rng.integers(-2, 3)) * rng.standard_normal(want_size)
     ctx.attempt(s.set_qoperations_from_var_total, fresh)
     ctx.attempt(s.set_qoperations_from_var_total, np.zeros(want_size + 1))
+    return vt
+
+
+def run_setq_case(ctx, hs, J, Q, cs, rng, case):
+    SetQ = J.SetQOperations
+    with hs.paused():
+        lists, desc = build_mix(ctx, J, Q, cs, rng)
+    ok, s = ctx.attempt(SetQ, states=lists["State"], gates=lists["Gate"], povms=lists["Povm"], mprocesses=lists["MProcess"])
+    info0 = {"members": desc}
+    if not ok:
+        ctx.violation(f"SetQOperations.ctor:{ctx.exc_key(s)}", info0)
+        return
+    vt = judge_setq(ctx, s, lists, desc, rng, J)
+    if vt is None:
+        return
+    # history: a member list is replaced through its setter after the set has been queried; every set-wide oracle must
+    # hold for the new contents (the conversions point at the entries of the CURRENT members)
+    if rng.random() < 0.6:
+        with hs.paused():
+            lists2, desc2 = build_mix(ctx, J, Q, cs, rng)
+        kinds = [t for t in ("State", "Gate", "Povm", "MProcess") if rng.random() < 0.5] or [str(rng.choice(["State", "Gate", "Povm"]))]
+        attr = {"State": "states", "Gate": "gates", "Povm": "povms", "MProcess": "mprocesses"}
+        okset = True
+        for t in kinds:
+            ok, e = ctx.attempt(setattr, s, attr[t], lists2[t])
+            if not ok:
+                ctx.violation(f"SetQOperations.{attr[t]}.setter:{ctx.exc_key(e)}", {"members": desc, "new": desc2})
+                okset = False
+                break
+            lists = dict(lists, **{t: lists2[t]})
+            J.vt_cache = None   # the hooks' reference var_total is memoised per set object
+        if okset:
+            desc = [x for x in desc if x[0] not in kinds] + [x for x in desc2 if x[0] in kinds]
+            desc.sort(key=lambda x: ("State", "Gate", "Povm", "MProcess").index(x[0]))
+            ctx.count("setq.history:lists-replaced:" + "+".join(attr[t] for t in kinds))
+            vt2 = judge_setq(ctx, s, lists, desc, rng, J, tag=":after-member-list-replaced")
+            if vt2 is not None:
+                ctx.nontrivial("setq-history", desc, vt2)
     ctx.nontrivial("setq", desc, vt)
     if case < 1:
-        ctx.sample({"part": "setq", "members[type,shape,flag,m]": desc, "size_var_total": want_size})
+        ctx.sample({"part": "setq", "members[type,shape,flag,m]": desc, "size_var_total": int(vt.size)})
 
 
 def run_numvar(ctx, hs, J, Q, cs):
